@@ -68,8 +68,15 @@ T0_NS = 1_600_000_000_000_000_000  # harness clock origin (no wall clock)
 # ------------------------------------------------------------------------------------------
 # generator
 # ------------------------------------------------------------------------------------------
+# LF / CRLF twins: the legacy md5-dos2unix flavour gives both members of a pair the same value
+TWINS = [("p:lf", "p:crlf"),
+         ("p:hello", "h:" + b"hello\r\n".hex()),
+         ("h:" + b"a\nb\n".hex(), "h:" + b"a\r\nb\r\n".hex())]
+
+
 def _content():
-    return st.one_of(gen.small_contents(), gen.small_contents(), gen.contents(pool_weight=1, max_size=24))
+    return st.one_of(gen.small_contents(), gen.small_contents(), gen.contents(pool_weight=1, max_size=24),
+                     st.sampled_from([c for pair in TWINS for c in pair]))
 
 
 def _edit():
@@ -107,10 +114,38 @@ def cases(draw):
         "prompt": draw(st.sampled_from(["none"] * 4 + ["decline"] * 4 + ["accept"])),
         "state": draw(st.sampled_from([False, False, False, True])),
     }
+    # the workspace was hashed through the SAME State under the other md5 flavour (a legacy
+    # md5-dos2unix store sharing the state db) after the user's edits; make LF/CRLF twins occur:
+    # one member cached, the other one an uncached user edit
+    case["legacy_hashed"] = draw(st.sampled_from([False, False, False, True]))
+    if case["legacy_hashed"]:
+        case["state"] = True
+        lf, crlf = draw(st.sampled_from(TWINS))
+        if draw(st.sampled_from([False, False, True])):
+            lf, crlf = crlf, lf
+        case["palette"] = case["palette"][:4] + [["cached", lf], ["uncached", crlf]]
+        k = len(case["palette"]) - 1
+        case["edits"] = case["edits"][:4] + [
+            draw(st.sampled_from([
+                {"op": "modify", "i": draw(st.integers(0, 11)), "c": k},
+                {"op": "modify", "i": draw(st.integers(0, 11)), "c": k},
+                {"op": "add", "d": draw(st.integers(0, 11)), "name": "notes.txt", "c": k},
+            ]))]
     if target_kind == "tree":
         case["target"] = draw(gen.trees(max_files=6, max_depth=3, content=_content()))
         # the whole root replaced by a plain file (file -> directory change of the root at checkout)
         case["root_file"] = draw(st.sampled_from([None] * 15 + [0, 1]))
+        # unreadable entries: dangling symlinks at new paths ("d": directory index, "name") or sitting
+        # at a target path ("t": index into the target's keys)
+        dang = st.one_of(
+            st.fixed_dictionaries({"d": st.integers(0, 11), "name": gen.names()}),
+            st.fixed_dictionaries({"d": st.integers(0, 11), "name": gen.names()}),
+            st.fixed_dictionaries({"t": st.integers(0, 11)}),
+        )
+        case["dangling"] = draw(st.one_of(st.just([]), st.just([]), st.just([]),
+                                          st.lists(dang, min_size=1, max_size=2)))
+        # symlink-cache scenario: drop target objects although workspace symlinks point at them
+        case["drop_symlinked"] = draw(st.sampled_from([False, False, True]))
     else:
         case["target"] = draw(_content())
     return case
@@ -123,8 +158,11 @@ def md5(data):
     return hashlib.md5(data).hexdigest()  # noqa: S324
 
 
-def snapshot(path):
-    """-> ({rel: bytes}, {rel dirs}); rel '' is the root itself when it is a file. Reads through links."""
+def snapshot(path, dangling=None):
+    """-> ({rel: bytes}, {rel dirs}); rel '' is the root itself when it is a file. Reads through links.
+
+    Dangling symlinks hold no bytes: they go into `dangling` (a set) when given, else they show up
+    as a marker entry."""
     files, dirs = {}, set()
     if not os.path.lexists(path):
         return files, dirs
@@ -132,7 +170,10 @@ def snapshot(path):
         try:
             files[""] = ref.read(path)
         except FileNotFoundError:  # dangling symlink: holds no data
-            files[""] = b"<dangling>" + os.readlink(path).encode()
+            if dangling is not None:
+                dangling.add("")
+            else:
+                files[""] = b"<dangling>" + os.readlink(path).encode()
         return files, dirs
     dirs.add("")
     for root, dnames, fnames in os.walk(path):
@@ -150,7 +191,10 @@ def snapshot(path):
             try:
                 files[r] = ref.read(os.path.join(root, fn))
             except FileNotFoundError:  # dangling symlink: holds no data
-                files[r] = b"<dangling>" + os.readlink(os.path.join(root, fn)).encode()
+                if dangling is not None:
+                    dangling.add(r)
+                else:
+                    files[r] = b"<dangling>" + os.readlink(os.path.join(root, fn)).encode()
     return files, dirs
 
 
@@ -333,13 +377,34 @@ def run_checkout_case(case, ctx):  # noqa: C901, PLR0912, PLR0915
                 os.path.islink(os.path.join(r, f)) for r, _, fl in os.walk(ws) for f in fl
             ) or os.path.islink(ws)
             toids = sorted({md5(b) for b in tflat.values()})
-            if case["drop"] and not has_symlink:
+            if case["drop"] and (not has_symlink or case.get("drop_symlinked")):
                 for i in case["drop"]:
                     p = os.path.join(cpath, toids[i % len(toids)][:2], toids[i % len(toids)][2:])
                     if os.path.exists(p):
                         os.chmod(p, 0o644)
                         os.unlink(p)
                         labels.add("target-object-dropped")
+
+            # dangling symlinks put into the workspace by the user (tree targets, directory root)
+            if case["target_kind"] == "tree" and os.path.isdir(ws) and not os.path.islink(ws):
+                tkeys = sorted(tflat)
+                for n, spec in enumerate(case.get("dangling") or []):
+                    if "t" in spec:
+                        p = os.path.join(ws, *tkeys[spec["t"] % len(tkeys)].split("/"))
+                    else:
+                        dl = sorted(snapshot(ws)[1])
+                        d0 = dl[spec["d"] % len(dl)]
+                        p = os.path.join(ws, *([x for x in d0.split("/") if x] + [spec["name"]]))
+                    parent = os.path.dirname(p)
+                    if os.path.isdir(p) and not os.path.islink(p):
+                        continue
+                    if os.path.lexists(parent) and not os.path.isdir(parent):
+                        continue
+                    os.makedirs(parent, exist_ok=True)
+                    if os.path.lexists(p):
+                        os.unlink(p)   # the user deleted the file and left a broken link in its place
+                    os.symlink(os.path.join(d, "nowhere", str(n)), p)
+                    labels.add("dangling-symlink:" + ("at-target-path" if "t" in spec else "extra-path"))
 
             # corrupt, unprotected objects under the names of otherwise uncached contents
             _, intact0 = cache_snapshot(cpath)
@@ -356,7 +421,23 @@ def run_checkout_case(case, ctx):  # noqa: C901, PLR0912, PLR0915
                             f.write(data + b"\x00corrupt")
                         os.chmod(p, 0o644)
 
-            before, dirs_before = snapshot(ws)
+            # pre-step: the same workspace hashed for a legacy md5-dos2unix store that shares the State
+            if case.get("legacy_hashed") and state is not None:
+                from dvc_data.hashfile.build import build
+
+                legacy = ops.make_odb("local", os.path.join(d, "legacy"), hash_name="md5-dos2unix",
+                                      state=state)
+                try:
+                    build(legacy, ws, fs, "md5-dos2unix", dry_run=True)
+                    labels.add("hashed-under-md5-dos2unix-first")
+                except FileNotFoundError:   # no workspace yet / dangling symlink inside
+                    pass
+
+            dangling_before = set()
+            before, dirs_before = snapshot(ws, dangling_before)
+            unreadable = bool(dangling_before)
+            if unreadable:
+                labels.add("workspace-has-dangling-symlink")
             _, intact_before = cache_snapshot(cpath)
 
             conflicts = {
@@ -389,6 +470,12 @@ def run_checkout_case(case, ctx):  # noqa: C901, PLR0912, PLR0915
                     # FileExistsError from makedirs. Any error counts as the refusal for this shape;
                     # the byte accounting below is what matters.
                     outcome, exc = "refused:" + type(e).__name__, e
+                elif unreadable and isinstance(e, OSError):
+                    # the workspace cannot be staged (dangling symlink): everything in the target is
+                    # linked as "added"; a file or directory in the way then surfaces as a bare
+                    # OSError (FileExistsError / NotADirectoryError from makedirs ...). An error, and
+                    # the byte accounting below still applies.
+                    outcome, exc = "refused:" + type(e).__name__, e
                 elif isinstance(e, FileNotFoundError) and "target-object-dropped" in labels:
                     # a target object is missing from the cache and the link type is symlink: the link
                     # is created dangling and the following stat fails. Nothing to do with user data.
@@ -396,7 +483,7 @@ def run_checkout_case(case, ctx):  # noqa: C901, PLR0912, PLR0915
                 else:
                     raise
 
-            after, dirs_after = snapshot(ws)
+            after, dirs_after = snapshot(ws, set())
             _, intact_after = cache_snapshot(cpath)
         finally:
             if state is not None:
@@ -425,8 +512,11 @@ def run_checkout_case(case, ctx):  # noqa: C901, PLR0912, PLR0915
                     f"and no intact object with that md5 exists in the cache"))
                 break
             # (2) an unrecoverable conflicting file => the call refuses
-            if unrec and outcome == "returned":
-                rel = sorted(unrec)[0]
+            # (when the workspace cannot be staged, extra files are simply left alone: only a
+            # conflicting file sitting at a target path is in the way of the checkout)
+            must_refuse = {r: k for r, k in unrec.items() if not unreadable or k == "modified"}
+            if must_refuse and outcome == "returned":
+                rel = sorted(must_refuse)[0]
                 viols.append(Viol(
                     f"no-refusal:{unrec[rel]}",
                     f"unrecoverable conflicting file {rel!r} present, yet checkout returned normally"))
@@ -439,7 +529,7 @@ def run_checkout_case(case, ctx):  # noqa: C901, PLR0912, PLR0915
                     viols.append(Viol("prompt-path-gone", f"PromptError names {rel!r}, which no longer exists"))
                 elif rel in before and after.get(rel) != before[rel]:
                     viols.append(Viol("prompt-path-altered", f"PromptError names {rel!r}, whose bytes changed"))
-                elif rel not in before and rel not in dirs_before:
+                elif rel not in before and rel not in dirs_before and rel not in dangling_before:
                     viols.append(Viol("prompt-path-unknown",
                                       f"PromptError names {rel!r}, which was not in the workspace"))
                 if rel in before and recoverable(before[rel], intact_before):
